@@ -24,7 +24,9 @@ FILES = {
     "mytyping.py": "class Tx:\n    pass\n",
     "_priv.py": "class Hidden:\n    pass\n",
     "only_in_td.py": "class Rare:\n    pass\n",
-    "pkg/typing.py": "class Hint:\n    pass\n",  # a user module whose dotted name merely ends in `typing`
+    "pkg/typing.py": "class Hint:\n    pass\n",
+    # user-defined generic classes, one of them nested in another class (they reach the renderer parametrised through source annotations)
+    "gen.py": "from typing import Generic, TypeVar\n\nT = TypeVar('T')\n\n\nclass Box(Generic[T]):\n    pass\n\n\nclass Shelf:\n    class Slot(Generic[T]):\n        pass\n",  # a user module whose dotted name merely ends in `typing`
 }
 
 
@@ -75,8 +77,10 @@ def setup_ns(tmod):
     import shape
     import mytyping
     import utils
+    import gen
 
     ns = gt.NS
+    ns.update({"gBox": gen.Box, "gSlot": gen.Shelf.Slot})
     ns.update({"uB": utils.B, "uU": utils.U, "puP": pkg.utils.P, "puB": pkg.utils.B, "fFoo": foo.Foo, "fBaz": foo.Baz, "bfQux": barfoo.Qux,
                "bfBaz": barfoo.Baz, "Own": tmod.Own, "OInner": tmod.Outer.Inner, "shp": shape.shape, "shpPart": shape.shape.Part, "shpBolt": shape.shape.Part.Bolt,
                "SIO": _io.StringIO, "txTx": mytyping.Tx, "pu_utils": pkg.utils.utils, "pTop": pkg.Top, "pvHidden": _priv.Hidden, "oRare": only_in_td.Rare,
@@ -310,7 +314,7 @@ TD_WRAPS = ["{t}", "List[{t}]", "Dict[str, {t}]", "Tuple[{t}, int]", "Optional[{
 # annotations that only a source file can contribute (inference never produces them) and that the renderer must still spell faithfully
 ANN_POOL = ["Callable[[], int]", "Callable[[int, uB], Own]", "Callable[..., Any]", "Optional[Callable[[], NoneType]]", "List[Callable[[int], str]]",
             "Dict[str, Callable[[], uU]]", "Callable[[Callable[[], int]], puP]", "Type[Own]", "Tuple[Callable[[], int], ...]", "Callable[[], OInner]",
-            "Union[Callable[[fFoo], bfQux], int]"]
+            "Union[Callable[[fFoo], bfQux], int]", "gBox[int]", "gSlot[int]", "List[gSlot[uB]]", "Optional[gBox[Own]]"]
 
 
 def gen_td_expr(rng, fresh, fields, depth=0):
